@@ -27,7 +27,13 @@ impl RhythmDifficultyPreprocessor {
 
         let pattern_groups = create_same_pattern_grouped_hit_objects(&rhythm_groups);
 
+        #[cfg(rosu_pp_verif)]
+        let mut verif_patterns: Vec<String> = Vec::new();
+
         for pattern_group in pattern_groups {
+            #[cfg(rosu_pp_verif)]
+            verif_patterns.push(pattern_group.get().groups.len().to_string());
+
             for group in pattern_group.get().upgraded_groups() {
                 for hit_object in group.get().upgraded_hit_objects() {
                     hit_object
@@ -37,6 +43,27 @@ impl RhythmDifficultyPreprocessor {
                 }
             }
         }
+
+        #[cfg(rosu_pp_verif)]
+        crate::verif::trace::emit(|| {
+            let num = |x: f64| if x.is_finite() { x.to_string() } else { "-1".to_owned() };
+            let intervals: Vec<String> = hit_objects
+                .note_objects
+                .iter()
+                .map(|h| num(h.get().delta_time))
+                .collect();
+            let groups: Vec<String> = rhythm_groups
+                .iter()
+                .map(|g| format!("[{},{}]", g.get().hit_objects.len(), num(g.get().interval)))
+                .collect();
+
+            format!(
+                r#"{{"g":"taiko_rhythm","intervals":[{}],"groups":[{}],"patterns":[{}]}}"#,
+                intervals.join(","),
+                groups.join(","),
+                verif_patterns.join(",")
+            )
+        });
     }
 }
 
